@@ -23,8 +23,82 @@ struct Barrier {
   }
 };
 
+// a user-supplied, STATEFUL base allocator for the pool: every pool owns its own instance; an instance that is
+// entered from a second thread is shared by independent documents (TSan sees the plain counters race as well)
+struct CountingBase {
+  size_t bytes = 0, calls = 0;
+  std::thread::id owner{};
+  bool foreign = false;
+  void enter() {
+    if (owner == std::thread::id())
+      owner = std::this_thread::get_id();
+    else if (owner != std::this_thread::get_id())
+      foreign = true;
+    calls++;
+  }
+  void* Malloc(size_t n) {
+    enter();
+    bytes += n;
+    return std::malloc(n);
+  }
+  void* Realloc(void* p, size_t, size_t n) {
+    enter();
+    bytes += n;
+    return std::realloc(p, n);
+  }
+  static void Free(void* p) { std::free(p); }
+  static constexpr bool kNeedFree = true;
+};
+static std::atomic<int> g_foreign_entries{0};
+struct CountingBaseChecked : CountingBase {
+  ~CountingBaseChecked() {
+    if (foreign) g_foreign_entries.fetch_add(1);
+  }
+};
+using CountDoc = GenericDocument<DNode<MemoryPoolAllocator<CountingBaseChecked>>>;
+
 static std::string doc_op(Document& d, int op) {
   switch (op) {
+    case 8: {
+      // on-demand lookups through ESCAPED keys (decoded into scratch storage) on the thread's own text
+      static const char kEsc[] = "{\"p\\tq\":31,\"u\\tv\":32,\"a\\u0041b\":{\"x\\ny\":[1,{\"\\\"\":2}]},\"long\\/xxxxxxxxxxxxxxxxxxxxxxxxxxxxxxxxxxxxxxxxxxxxxxxxxxxxxxxxxxxxxxxxxxxxx\":33}";
+      std::string r = "G";
+      {
+        StringView t;
+        ParseResult pr = GetOnDemand(StringView(kEsc, sizeof(kEsc) - 1), JsonPointer({JsonPointerNode("u\tv")}), t);
+        r += pr.Error() == kErrorNone ? std::string(t.data(), t.size()) : "E";
+        pr = GetOnDemand(StringView(kEsc, sizeof(kEsc) - 1), JsonPointer({JsonPointerNode("aAb"), JsonPointerNode("x\ny"), JsonPointerNode(1), JsonPointerNode("\"")}), t);
+        r += pr.Error() == kErrorNone ? std::string(t.data(), t.size()) : "E";
+        pr = GetOnDemand(StringView(kEsc, sizeof(kEsc) - 1), JsonPointer({JsonPointerNode("long/xxxxxxxxxxxxxxxxxxxxxxxxxxxxxxxxxxxxxxxxxxxxxxxxxxxxxxxxxxxxxxxxxxxxx")}), t);
+        r += pr.Error() == kErrorNone ? std::string(t.data(), t.size()) : "E";
+        pr = GetOnDemand(StringView(kEsc, sizeof(kEsc) - 1), JsonPointer({JsonPointerNode("r\ts")}), t);
+        r += pr.Error() == kErrorNone ? std::string(t.data(), t.size()) : "m";
+      }
+      Document o;
+      o.ParseOnDemand(kEsc, sizeof(kEsc) - 1, JsonPointer({JsonPointerNode("p\tq")}));
+      r += o.HasParseError() ? "e" : o.Dump();
+      return r;
+    }
+    case 9: {
+      // a second document type of this thread: pool over a stateful user-supplied base allocator (template argument)
+      CountDoc c;
+      c.Parse("{\"a\":[1,2,{\"b\":\"ssssssssssssssssssssssssssssssssssssssssssssssssssssssssssssssssssssssssssssssssssssssssss\"}],\"c\":[1.5,2.5,3.5,4.5,5.5,6.5,7.5,8.5,9.5]}");
+      for (int i = 0; i < 40; i++) c["c"].PushBack(CountDoc::NodeType(i), c.GetAllocator());
+      CountDoc c2;
+      c2.CopyFrom(c, c2.GetAllocator(), true);
+      return "C" + c2.Dump();
+    }
+    case 10: {
+      // freeing-allocator document, lookup map, equality, Swap, move
+      GenericDocument<DNode<SimpleAllocator>> s1, s2;
+      s1.Parse("{\"k1\":1,\"k2\":[true,null],\"k3\":{\"x\":\"y\"}}");
+      s1.CreateMap(s1.GetAllocator());
+      s2.CopyFrom(s1, s2.GetAllocator(), true);
+      std::string r = std::string("X") + (s1 == s2 ? "1" : "0") + (s1.HasMember("k3") ? "h" : "m");
+      s1.Swap(s2);
+      GenericDocument<DNode<SimpleAllocator>> s3(std::move(s1));
+      return r + s3.Dump();
+    }
     case 0: {
       // a text that reaches the slow paths too: exact-tie and subnormal numbers (big-decimal fallback), more
       // than 19 digits, escapes incl. surrogate pairs, long strings, deep nesting, long whitespace
@@ -127,13 +201,13 @@ int main(int argc, char** argv) {
   vr::Runner R(args);
   const bool quick = R.quick();
   const int rounds = quick ? 20 : 200;
-  const int NA = 8, NB = 10;
+  const int NA = 11, NB = 10;
   vr::Family fa, fb, fbm, fc;
   fa.name = "TA_independent_documents";
   fa.count = (uint64_t)NA * NA * rounds;
   fa.chunk = 4;
   fa.group = "TA";
-  fa.rule = "scenario A under TSan, free-running: 2-3 threads each working on their OWN document; every ordered pair of operations from {Parse, mutate, operator[] miss (non-const), Dump, operator[] miss (const), ParseOnDemand, ParseSchema, UpdateLazy} x rounds";
+  fa.rule = "scenario A under TSan, free-running: 2-3 threads each working on their OWN document; every ordered pair of operations from {Parse, mutate, operator[] miss (non-const), Dump, operator[] miss (const), ParseOnDemand, ParseSchema, UpdateLazy, GetOnDemand / ParseOnDemand through escaped keys, a document over a pool with a stateful user-supplied base allocator, a freeing-allocator document with map / == / Swap / move} x rounds; an allocator instance entered by two threads is reported even without an overlap";
   fb.name = "TB_shared_readonly_document";
   fb.count = (uint64_t)NB * NB * rounds;
   fb.chunk = 4;
@@ -148,11 +222,24 @@ int main(int argc, char** argv) {
   fc.group = "TC";
   fc.rule = "scenario C under TSan (built with SONIC_LOCKED_ALLOCATOR only): 2-4 threads x 50 Malloc/Realloc on one shared pool with a 64-byte chunk capacity, in 3 pool configurations (default; adaptive chunk policy; user buffer without base allocator, overflowing); blocks must also be disjoint and intact";
 
+  // the on-demand entry points alone (run as a job of C10: a lookup's result must not depend on what other threads look up)
+  vr::Family fao;
+  fao.name = "TAo_ondemand_in_threads";
+  fao.count = (uint64_t)4 * rounds * 3;
+  fao.chunk = 4;
+  fao.group = "TAo";
+  fao.rule = "3 threads, each looking up members of its OWN text through GetOnDemand / ParseOnDemand (plain and escaped keys, hits and misses), every ordered pair of the two on-demand operations x rounds, under TSan; results equal to the sequential run";
+
   vr::CheckFn check = [&](const vr::Family& f, uint64_t idx, vr::Ctx& ctx) {
     ctx.eval();
     ctx.nontriv();
     if (f.name[1] == 'A') {
       int o1 = (int)(idx % NA), o2 = (int)((idx / NA) % NA);
+      if (f.name[2] == 'o') {
+        static const int od[2] = {5, 8};
+        o1 = od[idx % 2];
+        o2 = od[(idx / 2) % 2];
+      }
       if (ctx.want_sample) ctx.sample("ops " + std::to_string(o1) + "," + std::to_string(o2));
       const int T = 3;
       Barrier bar(T);
@@ -171,6 +258,8 @@ int main(int argc, char** argv) {
       for (auto& x : th) x.join();
       for (int t = 0; t < T; t++)
         if (obs[t] != seq[t]) ctx.violation("observation", "tsan_observation_differs", "A", "thread %d observed %s, sequential run %s", t, obs[t].substr(0, 100).c_str(), seq[t].substr(0, 100).c_str());
+      if (g_foreign_entries.exchange(0))
+        ctx.violation("shared_instance", "tsan_allocator_instance_shared", "A", "a base-allocator instance belonging to one thread's document was entered from another thread: independent documents share hidden state");
       return;
     }
     if (f.name[1] == 'B') {
@@ -273,9 +362,10 @@ int main(int argc, char** argv) {
   fams = {fc};
 #else
   fams = {fa, fb, fbm};
+  if (args.get("only") == fao.name) fams = {fao};
 #endif
   if (args.replay) {
-    std::vector<vr::Family> all = {fa, fb, fbm, fc};
+    std::vector<vr::Family> all = {fa, fb, fbm, fc, fao};
     return R.replay_one(all, check);
   }
   for (auto& f : fams) R.run(f, check);
